@@ -303,7 +303,7 @@ class Run:
         return old != text
 
     # ---------------- step 2: correspondence ----------------
-    def coq_cases(self, stream, imports, prelude, case_terms, check_fn, shard=400, timeout=900, show_fn=None):
+    def coq_cases(self, stream, imports, prelude, case_terms, check_fn, shard=400, timeout=900, case_type=None):
         """Evaluate `check_fn case` (a Gallina bool) for every term of case_terms inside coqc (vm_compute).
         Returns the sorted list of indices on which it is false, or None if Coq could not evaluate a shard.
         `prelude` is Coq text placed before the cases (shared definitions)."""
@@ -319,7 +319,7 @@ class Run:
                 f.write("From V Require Import Model.CasesLib.\n")
                 f.write(prelude + "\n")
                 for j, t in enumerate(sh_terms):
-                    f.write("Definition c%d := %s.\n" % (j, t))
+                    f.write("Definition c%d%s := %s.\n" % (j, (" : " + case_type) if case_type else "", t))
                 f.write("Definition results : list bool := %s.\n" % coq_list(
                     ["(%s c%d)" % (check_fn, j) for j in range(len(sh_terms))]))
                 f.write("Eval vm_compute in (VERIF_RESULT (N.of_nat (List.length results)) (mismatches results)).\n")
